@@ -39,7 +39,7 @@ TABLES = [
     {"F": [0.0, 1.0, 2.0, 3.0], "I": [5, -2, 0, 1], "G": [-1.5, 0.0, 0.0, 2.0]},
     {"F": [2.0, None, 2.0, 2.0], "I": [3, 3, 3, 3], "G": [0.5, None, 0.5, 1.0]},  # constant columns: degenerate statistics
 ]
-DISCONT = ("CvtToBinary", "NormalizeCat", "CvtToFuzzyCat", "NormalizeMeanToMid", "CvtToFuzzyMeanToMid")
+DISCONT = ("CvtToBinary", "NormalizeCat", "CvtToFuzzyCat", "NormalizeMeanToMid", "CvtToFuzzyMeanToMid", "ADividedByB")
 
 
 def BOUND(tier):
@@ -123,7 +123,7 @@ def _ref_eval(cmds, table):
         r = REF.apply(cmd, cols, p)
         if r[0] == "ok":
             computed = any(i not in ("F", "I", "G") for i in ins)
-            if cmd in DISCONT and computed and _near_discontinuity(cmd, p, cols[0]):
+            if cmd in DISCONT and computed and _near_discontinuity(cmd, p, cols[1] if cmd == "ADividedByB" else cols[0]):
                 unstable.add(name)
             env[name] = ("ok", r[1], r[2] or approx_in)
             if any(i in unstable for i in ins):
@@ -136,7 +136,9 @@ def _ref_eval(cmds, table):
 def _near_discontinuity(cmd, p, cells):
     vals = [float(c) for c in cells if c is not None]
     pts = []
-    if cmd == "CvtToBinary":
+    if cmd == "ADividedByB":
+        pts = [0.0]  # a computed denominator that is zero in exact arithmetic may be +-1e-16 in floating point
+    elif cmd == "CvtToBinary":
         pts = [float(p["Threshold"])]
     elif cmd.endswith("Cat"):
         pts = [float(x) for x in p["RawValues"]]
